@@ -81,6 +81,29 @@ def check_case(G, R, case):
                  "density scaled by %g must scale every SLD and cross section by %g and the penetration depth by 1/%g"
                  % (k, k, k))
         R.ok(1)
+    # density scaling when the compound is a Formula OBJECT that carries its own density and the new
+    # density is given by keyword (density= or natural_density=): the keyword must win, so the results
+    # still scale with k (for an isotope-free, ion-free compound natural density == density)
+    try:
+        from periodictable.formulas import formula as _mk
+        fobj = _mk(d, density=rho)
+        nat_ratio = fobj.natural_mass_ratio()
+        for k in (0.5, 2):
+            got = flatten(_ns(fobj, density=k * rho, wavelength=lam))
+            _compare(G, dict(case, k=k, route="Formula object, density="), cid, lid, "formula_object_density_x%g" % k, got,
+                     _transform(base, k), _scaled_ref(ref, k),
+                     "a Formula object passed with density=%g*rho must use the given density" % k)
+            got = flatten(_ns(fobj, natural_density=k * rho * nat_ratio, wavelength=lam))
+            _compare(G, dict(case, k=k, route="Formula object, natural_density="), cid, lid,
+                     "formula_object_natural_density_x%g" % k, got, _transform(base, k), _scaled_ref(ref, k),
+                     "a Formula object passed with natural_density= (the natural density equivalent to %g*rho) must use it" % k)
+            R.ok(2)
+        if fobj.density != rho:
+            G.violation(("frame", "formula_object"), "relations:formula_object_mutated:%s:%s" % (cid, lid),
+                        "passing a Formula object to neutron_scattering changed its density", case, fobj.density, rho)
+    except Exception as e:
+        G.violation(("exception", "formula_object"), "relations:exception_formula_object:%s:%s" % (cid, lid),
+                    "neutron_scattering(Formula object, density keyword) raised", case, "%s: %s" % (type(e).__name__, e))
     # count scaling
     for k in (2, 0.5, 7):
         got = flatten(_ns({a: k * n for a, n in d.items()}, density=rho, wavelength=lam))
